@@ -4,6 +4,7 @@ import BqVerif.Proofs.Worker
 import BqVerif.Model.FineWake
 import BqVerif.Proofs.StartOnceNet
 import BqVerif.Proofs.IntegrityNet
+import BqVerif.Proofs.RetOnceNet
 import BqVerif.Model.RuntimeWitness
 /-!
 # C07 — every awaited runtime future resolves exactly once with its own result
@@ -160,9 +161,8 @@ example : startsOf ⟨-1, 0, 0⟩ ((Net.initFlat leakTable false 1 1).execEvs le
     single-result mailbox: `(w, m, ·)`); (3) every result stored in a server mailbox `m` was
     returned by a task addressed to `(-1, m, ·)`.  So results are never mis-routed, mixed up
     between slots, or invented.
-    (`_partial`: "a value the task returned", not yet "the value" - uniqueness of the `ret`
-    event per address is validated, the analogue `C07_G_start_once_partial` is proved; the
-    client leg `sResult` is covered by the correspondence only.) -/
+    (`_partial`: flat topology; uniqueness of the returned value is `C07_G_return_once_partial`;
+    the client leg `sResult` is covered by the correspondence only.) -/
 theorem C07_G_integrity_partial (tbl : Table) (attached : Bool) (nw nc : Nat) (trs : List Tr)
     (hwf : ∀ t ∈ trs, t.wf) :
     let n := (Net.initFlat tbl attached nw nc).exec trs
@@ -174,6 +174,25 @@ theorem C07_G_integrity_partial (tbl : Table) (attached : Bool) (nw nc : Nat) (t
   have h := (IInv.init tbl attached nw nc).exec (GInv.init tbl attached nw nc) trs hwf
   simp only [List.nil_append] at h
   exact ⟨fun c hc a v b hm => h.chans c hc a v b hm, h.workers, h.server⟩
+
+/-- **Every task returns at most once, so "a value it returned" is "its value"** (flat topology,
+    all schedules): the event `ret a` occurs at most once per address (same potential argument as
+    for `start`, `Proofs/RetOnce*.lean`); hence two `ret` events of the same address in the log
+    of a run carry the same value - together with `C07_G_integrity_partial`: whatever sits in a
+    RESULT message, a mailbox slot or a server mailbox is *the* value the task addressed to it
+    returned. -/
+theorem C07_G_return_once_partial (tbl : Table) (attached : Bool) (nw nc : Nat) (trs : List Tr)
+    (hwf : ∀ t ∈ trs, t.wf) (a : Addr) :
+    let H := (Net.initFlat tbl attached nw nc).execEvs trs
+    retsOf a H ≤ 1 ∧ ∀ v v', RetIn H a v → RetIn H a v' → v = v' := by
+  have h := rets_at_most_once tbl attached nw nc trs hwf a
+  refine ⟨h, ?_⟩
+  rintro v v' ⟨t, h1⟩ ⟨t', h2⟩
+  exact ret_unique a _ h t t' v v' h1 h2
+
+example : retsOf ⟨-1, 0, 0⟩ ((Net.initFlat driftTable false 1 1).execEvs driftRun) = 1 := by
+  decide +kernel
+
 
 /-- … and what an `await` hands to the body is exactly the content of the awaited mailbox,
     which is ready at that moment: `box.result`, the slot vector in argument order. -/
